@@ -34,6 +34,7 @@ fn main() {
         "gen" => gen(&a),
         "search" => search(&a),
         "sql" => sql_mode(&a),
+        "plan" => plan_mode(&a),
         _ => { eprintln!("c17: unknown mode"); std::process::exit(2); }
     }
 }
@@ -560,7 +561,7 @@ fn emit_sql(w: &mut CaseWriter, sut: &mut Sut, q: &Query, stream: &str) {
     for o in &outs { if let Out::Bad(m) = o { eprintln!("c17: unexpected result: {} on {}", m, q.line()); } }
     let all_same = outs.iter().all(|o| *o == outs[0]);
     let shown: Vec<String> = if all_same { vec![outs[0].coq()] } else { outs.iter().map(|o| o.coq()).collect() };
-    let term = format!("Sql {} {} [{}]", q.coq(), cbool(all_same), shown.join("; "));
+    let term = format!("Sql {} {} {} [{}]", q.coq(), cbool(q.qual), cbool(all_same), shown.join("; "));
     let spec = query_spec(q);
     let has_null_or_dup = q.tabs.iter().any(|t| t.rows.iter().any(|r| r.iter().any(|v| v.is_null())));
     let nontrivial = spec.as_ref().map(|s| !s.is_empty()).unwrap_or(false) && has_null_or_dup && q.tabs.iter().all(|t| !t.rows.is_empty());
@@ -626,6 +627,7 @@ fn gen_exec_case(rng: &mut Rng, thorough: bool) -> ExecCase {
     let n = *rng.pick(&[1usize, 2, 3, 4, 7, 16, 16]);
     let spill = if algo == Algo::GraceDyn && rng.chance(3, 5) { Some(*rng.pick(&[0usize, 16, 64, 256, 1024, 4096, 65536, 10 * 1024 * 1024])) } else { None };
     let swapped = algo == Algo::Streaming && rng.chance(1, 2);
+    let jt = if swapped { Jt::Inner } else { jt };
     ExecCase { algo, jt, n, spill, lk, rk, lw, rw, l, r, swapped }
 }
 
@@ -643,7 +645,7 @@ fn structured_exec() -> Vec<ExecCase> {
             }
         }
         v.push(ExecCase { algo: Algo::NestedLoop, jt, n: 1, spill: None, lk: vec![1], rk: vec![0], lw: 2, rw: 2, l: l.clone(), r: r.clone(), swapped: false });
-        for sw in [false, true] { v.push(ExecCase { algo: Algo::Streaming, jt, n: 1, spill: None, lk: vec![1], rk: vec![0], lw: 2, rw: 2, l: l.clone(), r: r.clone(), swapped: sw }); }
+        for sw in [false, true] { if sw && jt != Jt::Inner { continue; } v.push(ExecCase { algo: Algo::Streaming, jt, n: 1, spill: None, lk: vec![1], rk: vec![0], lw: 2, rw: 2, l: l.clone(), r: r.clone(), swapped: sw }); }
     }
     for n in [1usize, 4, 16] { v.push(ExecCase { algo: Algo::GraceStatic, jt: Jt::Inner, n, spill: None, lk: vec![1], rk: vec![0], lw: 2, rw: 2, l: l.clone(), r: r.clone(), swapped: false }); }
     v
@@ -746,12 +748,17 @@ fn gen_on(rng: &mut Rng, tabs: &[Table], k: usize, p: Profile) -> Expr {
     }
 }
 
-fn gen_query(rng: &mut Rng, p: Profile, thorough: bool) -> Query {
+fn gen_tables(rng: &mut Rng, p: Profile, thorough: bool) -> Vec<Table> {
     let ntabs = match (p, rng.below(10)) { (Profile::Clean, 0..=7) => 2, (Profile::Clean, _) => 3, (Profile::Any, 0..=4) => 2, (Profile::Any, 5..=7) => 3, _ => 4 };
     let null_pct = *rng.pick(&[0u64, 15, 25, 40]);
     let float_keys = rng.chance(1, 6);
     let max_rows = if ntabs > 2 { 4 } else if thorough { 7 } else { 6 };
-    let tabs: Vec<Table> = (0..ntabs).map(|k| gen_sql_table(rng, k, null_pct, float_keys, max_rows)).collect();
+    (0..ntabs).map(|k| gen_sql_table(rng, k, null_pct, float_keys, max_rows)).collect()
+}
+
+fn gen_query(rng: &mut Rng, p: Profile, tabs: &[Table]) -> Query {
+    let tabs: Vec<Table> = tabs.to_vec();
+    let ntabs = tabs.len();
     let mut joins = vec![];
     let all_comma = rng.chance(1, 12);
     for k in 1..ntabs {
@@ -850,12 +857,15 @@ fn gen(a: &Args) {
     let n_exec = if a.thorough() { 12_000 } else { 900 };
     for _ in 0..n_exec { let c = gen_exec_case(&mut rng, a.thorough()); emit_exec(&mut w, &c, &root, &mut seq, "random"); }
     for q in structured_sql() { emit_sql(&mut w, &mut sut, &q, "structured"); }
-    let n_sql = if a.thorough() { 6_000 } else { 420 };
-    for k in 0..n_sql {
-        // four of five queries stay outside every recorded finding class (profile `clean`)
+    // four of five table sets are queried only outside every recorded finding class (profile `clean`)
+    let (n_sets, per_set) = if a.thorough() { (600, 10) } else { (60, 7) };
+    for k in 0..n_sets {
         let p = if k % 5 == 4 { Profile::Any } else { Profile::Clean };
-        let q = gen_query(&mut rng, p, a.thorough());
-        emit_sql(&mut w, &mut sut, &q, if p == Profile::Clean { "clean" } else { "any" });
+        let tabs = gen_tables(&mut rng, p, a.thorough());
+        for _ in 0..per_set {
+            let q = gen_query(&mut rng, p, &tabs);
+            emit_sql(&mut w, &mut sut, &q, if p == Profile::Clean { "clean" } else { "any" });
+        }
     }
     sut.cleanup();
     let _ = std::fs::remove_dir_all(&root);
@@ -867,17 +877,42 @@ fn gen(a: &Args) {
 /// known_class in coq/Corr/C17.v)
 fn rough_class_sql(q: &Query) -> u32 {
     if q.sel.is_none() { return 2; }
-    let mut lw = q.tabs[0].cols.len();
-    let outer = q.joins.iter().any(|(j, _)| j.left_outer() || j.right_outer());
-    let multi = q.tabs.len() > 2;
-    for (k, (_, on)) in q.joins.iter().enumerate() {
-        let sh = on_shape(on, lw);
-        if sh == "equi_plus_residual" { return 3; }
-        if multi && (sh == "equi" || sh == "equi_multi") { return 6; }
+    let lw0 = q.tabs[0].cols.len();
+    let outer = |j: &Jt| j.left_outer() || j.right_outer();
+    if q.tabs.len() == 2 {
+        let (jt, on) = &q.joins[0];
+        let on = if jt.has_on() { on.clone() } else { None };
+        let sh = on_shape(&on, lw0);
+        // same-side `col = col` conjuncts count as residual too
+        let same_side = { fn conj<'a>(e: &'a Expr, out: &mut Vec<&'a Expr>) { if let Expr::And(a, b) = e { conj(a, out); conj(b, out); } else { out.push(e); } }
+            let mut c = vec![]; if let Some(e) = &on { conj(e, &mut c); }
+            c.iter().any(|x| matches!(x, Expr::Cmp(CmpOp::Eq, a, b) if matches!((&**a, &**b), (Expr::Col(i), Expr::Col(j)) if (*i < lw0) == (*j < lw0)))) };
+        if sh == "equi_plus_residual" || same_side { return 3; }
+        if outer(jt) && q.whr.is_some() { return 4; }
+        if q.qual && q.whr.is_some() { return 10; }
+        if sh == "equi" || sh == "equi_multi" {
+            // a pair of zero keys of different sign (or Int 0 against -0.0)
+            let zeroish = |v: &Val| matches!(v, Val::Float(b) if *b << 1 == 0) || matches!(v, Val::Int(0));
+            let neg = |v: &Val| matches!(v, Val::Float(b) if *b == 1u64 << 63);
+            let l = q.tabs[0].rows.iter().flatten();
+            let r = q.tabs[1].rows.iter().flatten();
+            let (lz, ln) = (l.clone().any(|v| zeroish(v) && !neg(v)), l.clone().any(neg));
+            let (rz, rn) = (r.clone().any(|v| zeroish(v) && !neg(v)), r.clone().any(neg));
+            if (lz && rn) || (ln && rz) { return 8; }
+        }
+        return 0;
+    }
+    if q.whr.is_some() && q.qual { return 5; }
+    let mut lw = lw0;
+    for (k, (jt, on)) in q.joins.iter().enumerate() {
+        let on = if jt.has_on() { on.clone() } else { None };
+        let sh = on_shape(&on, lw);
+        if sh != "none" && sh != "non_equi" { return 6; }
+        // a same-side equality is an equi key for the planner as well
+        if let Some(e) = &on { let mut found = false; e.walk(&mut |x| if let Expr::Cmp(CmpOp::Eq, a, b) = x { if matches!((&**a, &**b), (Expr::Col(_), Expr::Col(_))) { found = true; } }); if found && sh == "non_equi" { /* inside OR etc.: not a top-level key */ } }
         lw += q.tabs[k + 1].cols.len();
     }
-    if outer && q.whr.is_some() { return 4; }
-    if multi && outer { return 7; }
+    if q.joins[..q.joins.len() - 1].iter().any(|(j, _)| outer(j)) { return 7; }
     0
 }
 
@@ -890,6 +925,7 @@ fn search(a: &Args) {
     let mut fails: Vec<String> = vec![];
     let mut tried: u64 = 0;
     let budget = a.budget.min(30_000);
+    let mut cur_tabs: Vec<Table> = vec![];
     while tried < budget {
         tried += 1;
         if tried % 2 == 0 {
@@ -900,8 +936,9 @@ fn search(a: &Args) {
             let ok = matches!(&out, Out::Rows(r) if bag_eq(r, &spec));
             if !ok && fails.len() < 80 { fails.push(format!("{} #k={}", c.line(), if exec_mixed_equal(&c) { 1 } else { 0 })); }
         } else {
-            let p = if tried % 4 == 1 { Profile::Clean } else { Profile::Any };
-            let q = gen_query(&mut rng, p, true);
+            let p = if (tried / 16) % 2 == 0 { Profile::Clean } else { Profile::Any };
+            if tried % 16 == 1 || cur_tabs.is_empty() { cur_tabs = gen_tables(&mut rng, p, true); }
+            let q = gen_query(&mut rng, p, &cur_tabs);
             let Some(spec) = query_spec(&q) else { continue };
             let outs = sut.run_all(&q);
             let ok = outs.iter().all(|o| matches!(o, Out::Rows(r) if bag_eq(r, &spec)));
@@ -968,4 +1005,33 @@ fn sql_mode(a: &Args) {
     }
     drop(db);
     let _ = std::fs::remove_dir_all(&dir);
+}
+
+/// debug: the physical plan of every `sql | ...` replay line (or SELECT over ta(a0,a1,a2 BIGINT), tb.., tc..) of FILE
+fn plan_mode(a: &Args) {
+    use turdb::records::types::DataType;
+    use turdb::schema::{Catalog, ColumnDef};
+    let file = a.rest.get(0).expect("file");
+    for l in std::fs::read_to_string(file).unwrap().lines() {
+        let l = l.trim();
+        if l.is_empty() || l.starts_with('#') { continue; }
+        let (sql, tabs): (String, Vec<Vec<ColTy>>) = match Query::parse(l) {
+            Some(q) => (q.to_sql(), q.tabs.iter().map(|t| t.cols.clone()).collect()),
+            None => (l.to_string(), vec![vec![ColTy::Int; 3]; 4]),
+        };
+        let r = catch(std::panic::AssertUnwindSafe(|| -> Result<String, String> {
+            let mut c = Catalog::new();
+            for (k, cols) in tabs.iter().enumerate() {
+                let defs: Vec<ColumnDef> = cols.iter().enumerate().map(|(j, ty)| ColumnDef::new(tcol(k, j), match ty { ColTy::Int => DataType::Int8, ColTy::Float => DataType::Float8, ColTy::Text => DataType::Text })).collect();
+                c.create_table("", TNAMES[k], defs).map_err(|e| format!("catalog: {:#}", e))?;
+            }
+            let arena = Default::default();
+            let mut parser = turdb::sql::Parser::new(&sql, &arena);
+            let stmt = parser.parse_statement().map_err(|e| format!("parse: {:#}", e))?;
+            let planner = turdb::sql::planner::Planner::new(&c, &arena);
+            let plan = planner.create_physical_plan(&stmt).map_err(|e| format!("plan: {:#}", e))?;
+            Ok(plan.explain())
+        }));
+        match r { Caught::Done(Ok(s)) => println!("{}\n{}", sql, s), Caught::Done(Err(m)) => println!("{}\n   ERR {}", sql, m), Caught::Panicked(m) => println!("{}\n   PANIC {}", sql, m) }
+    }
 }
